@@ -240,6 +240,42 @@ def run(res):
                 res.violation("unix-time-numpy-index", "get_unix_time given the index as a numpy integer scalar returns the time of "
                               "another index", {"fn": "unix", "k": k, "n": n, "d": dd, "index_type": mk.__name__}, spec, impl)
                 break
+    # ---- several threads convert at once: the result is a function of the arguments, whoever else is converting
+    #      (the library fills the calendar fields through gmtime's one static struct tm per process)
+    import threading
+    rates = [(1000, 1), (1, 1), (200000, 3), (10 ** 9, 1)]
+    jobs = []
+    for t in range(8):
+        n, dd = rates[t % len(rates)]
+        sec = [86400 * 365 * 140 + 37, 1, 951782400 + 86399, 4102444799, 1500000000 + t, 68 * 366 * 86400, 253402300799 - t, 31][t]
+        k = -(-sec * n // dd) + t
+        s_, ps = k * dd // n, ((k * dd) % n) * PS // n
+        jobs.append((k, n, dd, [0] + civil(s_) + [ps]))
+    bad, stop = [], threading.Event()
+    reps = 4000 if res.tier == "quick" else 60000
+
+    def worker(job):
+        k, n, dd, spec = job
+        for _ in range(reps):
+            if stop.is_set():
+                return
+            dt, ips = digital_rf.get_unix_time(k, n, dd)
+            impl = [0, dt.year, dt.month, dt.day, dt.hour, dt.minute, dt.second, ips]
+            if impl != spec:
+                bad.append((k, n, dd, spec, impl))
+                stop.set()
+                return
+    ths = [threading.Thread(target=worker, args=(j,)) for j in jobs]
+    for th in ths:
+        th.start()
+    for th in ths:
+        th.join()
+    res.count("concurrent-conversions", reps * len(jobs))
+    if bad:
+        k, n, dd, spec, impl = bad[0]
+        res.violation("unix-time-differs-under-concurrency", "get_unix_time returns another index's calendar fields while other "
+                      "threads convert", {"fn": "unix-threads", "k": k, "n": n, "d": dd, "threads": [list(j[:3]) for j in jobs], "reps": reps},
+                      spec, impl)
     # ---- guard the extraction: a sample evaluated by vm_compute inside Coq
     sub = [cases[i] for i in range(0, len(cases), max(1, len(cases) // 150))][:150]
     exprs = ["(let '(rc, s, p) := digital_rf_get_timestamp_floor (%d) (%d) (%d) in [rc; s; p])" % c for c in sub]
@@ -261,6 +297,32 @@ def replay(res, rp):
     import digital_rf
     i = rp["input"]
     print("replay", i, "expected", rp.get("expected"), "observed-then", rp.get("observed"))
+    if isinstance(i, dict) and i.get("fn") == "unix-threads":
+        import threading
+        jobs = [tuple(j) for j in i["threads"]]
+        bad = []
+
+        def worker(job):
+            k, n, dd = job
+            want = [0] + civil(k * dd // n) + [((k * dd) % n) * PS // n]
+            for _ in range(max(20000, i.get("reps", 0))):
+                if bad:
+                    return
+                dt, ips = digital_rf.get_unix_time(k, n, dd)
+                got = [0, dt.year, dt.month, dt.day, dt.hour, dt.minute, dt.second, ips]
+                if got != want:
+                    bad.append((job, want, got))
+                    return
+        ths = [threading.Thread(target=worker, args=(j,)) for j in jobs]
+        for th in ths:
+            th.start()
+        for th in ths:
+            th.join()
+        print("%d threads converting their own index repeatedly:" % len(jobs), jobs)
+        if bad:
+            print("get_unix_time%s -> %s; exact value %s" % (bad[0][0], bad[0][2], bad[0][1]))
+        print("replay verdict:", "STILL VIOLATING" if bad else "no longer violating")
+        return 1 if bad else 0
     if isinstance(i, dict) and i.get("fn") == "unix":
         for (k, n, dd) in i.get("history") or []:
             digital_rf.get_unix_time(k, n, dd)
